@@ -17,7 +17,7 @@ pub fn evals(prop: &str) -> Vec<(&'static str, &'static str)> {
         match prop {
             "C06" => v.extend([("prop_same_tokens", "prop_same_tokens"), ("prop_sorted_derives", "prop_sorted_derives")]),
             "C09" => v.extend([("prop_frame", "prop_frame"), ("prop_switches", "prop_switches")]),
-            "C17" => v.extend([("prop_same_tokens", "prop_same_tokens"), ("hyp_c17", "hyp_c17")]),
+            "C17" => v.extend([("prop_same_tokens", "prop_same_tokens"), ("hyp_c17", "hyp_c17"), ("known_F18", "known_F18")]),
             _ => {}
         }
         v.push(("hyp_both_ok", "hyp_both_ok"));
@@ -227,6 +227,21 @@ pub fn cases(prop: &str, tier: &str, ctx: &mut Ctx, rng: &mut Rng) {
                 spec2.ops = ops;
                 ctx.push_pair("permuted-history", "same", (reg, &spec), (reg, &spec2));
                 ctx.push_pair("repeated-run", "same", (reg, &spec), (reg, &spec));
+            }
+            // the de-duplicated registry: two independent runs of ensure_unique_type_paths on
+            // registries with several clashing paths (fresh hash maps each time)
+            for _ in 0..(60 * scale) {
+                let p = crate::famgen::family_program(rng);
+                let (rj, _) = reggen::build(&p);
+                let reg = reggen::to_registry(&rj);
+                let mut a = reg.clone();
+                let mut b = reg.clone();
+                let ra = std::panic::catch_unwind(move || { let r = scale_typegen::utils::ensure_unique_type_paths(&mut a); (r.is_ok(), a) });
+                let rb = std::panic::catch_unwind(move || { let r = scale_typegen::utils::ensure_unique_type_paths(&mut b); (r.is_ok(), b) });
+                if let (Ok((true, a)), Ok((true, b))) = (ra, rb) {
+                    let spec = base_spec(&reg);
+                    ctx.push_pair("dedup-twice", "dedup-same", (&a, &spec), (&b, &spec));
+                }
             }
         }
         "C09" => {
